@@ -48,7 +48,9 @@ def build(c, key):
     elif pick == 2:
         NAMES = [("Plain_Name", "plain_name"), ("lower", "lower"), ("X", "x"), ("Y2", "y2")]
     vs = c["vs"]
-    has_named = any(v["k"] == "named" for v in vs)
+    # (a named variant that is IGNORED takes no accessor: Unwrap / TryUnwrap are derivable next to it, and its values still
+    # reach the other variants' accessors)
+    has_named = any(v["k"] == "named" and not v["ign"] for v in vs)
     derives = ["IsVariant", "TryInto"] if has_named else ["IsVariant", "Unwrap", "TryUnwrap", "TryInto"]
     gen_pos = None
     if c["generic"]:
